@@ -10,7 +10,19 @@ from ..core import Ctx, enc
 from ..gen.project import Unit, build_system
 from .. import namesdump as nd
 
-THEOREMS = ["Names.relative_level", "Names.expand_single_local", "Names.findObject_registered"]
+THEOREMS = [
+    # the re-export move (Registry.reparent) over any state satisfying the C02 invariant
+    "Registry.reparent_once", "Registry.no_key_under_old_name", "Registry.reparent_leaves_alias",
+    "Names.old_name_finds", "Names.old_member_name_finds", "Names.new_name_resolves",
+    "Names.consumer_of_definer_counterexample",
+    # the lemmas they rest on
+    # (Registry.reparent_spec itself is declared and audited in PdProps.C02)
+    "Registry.reparent_free", "Names.expandLoop_descend", "Names.expandLoop_step",
+    "Registry.find_root", "Names.old_name_finds_of_forall", "Names.old_member_name_finds_of_forall",
+    "Names.prefixesAreContainers_spec",
+    # earlier pieces
+    "Names.relative_level", "Names.expand_single_local", "Names.findObject_registered",
+]
 RULE = ("generated packages per the quantifier: definer module, one re-exporter (package __init__ or sibling module; plain, "
         "absolute, renamed or star import; __all__), consumers importing from the definer, the re-exporter or both and "
         "using the object as base class, annotation and docstring cross-reference; every reachable sibling order. For every "
@@ -19,9 +31,14 @@ RULE = ("generated packages per the quantifier: definer module, one re-exporter 
         "Non-trivial = the project has a consumer that imports from the defining module or a renamed/star re-export.")
 ASSUMPTIONS = ["names contain no '.' in the compared queries (paths = dotted strings)",
                "the class linearisation used by Class.find is taken from the real system (C05 covers it)"]
-PARTIAL = {"Names.reference_reaches": "false on the current tree for a consumer that imports the moved object from its "
-                                      "defining module (known finding); proved pieces: relative_level, expand_single_local, "
-                                      "findObject_registered"}
+PARTIAL = {"Names.reference_reaches": "the last clause at full strength (every reference that named the object before the move "
+                                      "still resolves) is false on the current tree for a consumer that imports the moved object "
+                                      "from its defining module (known finding; Names.consumer_of_definer_counterexample). Proved "
+                                      "instead: find_object of the old qualified name and of old member names reaches the moved "
+                                      "objects (old_name_finds, old_member_name_finds: destination name free, every proper prefix "
+                                      "of the name is a module/package/class, no superseded `name i` component), the new name "
+                                      "resolves (new_name_resolves), one registration under the new name and none under the old "
+                                      "(reparent_once, free destination), alias left behind (reparent_leaves_alias, both branches)"}
 
 
 def gen_project(rng) -> Tuple[List[Unit], Dict[str, Any]]:
